@@ -749,6 +749,10 @@ func (x *Exec) binop(s *State, op token.Token, X, Y ssa.Value, rt types.Type, in
 			}
 			return Wrap(smt.Mul(smt.IntB(pow2(int(k))), a), bits, signed)
 		}
+		if bits <= 64 {
+			// variable shift count: case analysis over the (at most 64) counts that leave anything
+			return shiftChain(b, bits, func(k int) *smt.Term { return Wrap(smt.Mul(smt.IntB(pow2(k)), a), bits, signed) }, smt.IntC(0))
+		}
 		return x.uninterpOp("shl", bits, signed, a, b)
 	case token.SHR:
 		if b.IsInt() && b.Int.IsInt64() {
@@ -761,6 +765,13 @@ func (x *Exec) binop(s *State, op token.Token, X, Y ssa.Value, rt types.Type, in
 			}
 			return smt.Div(a, smt.IntB(pow2(int(k))))
 		}
+		if bits <= 64 {
+			over := smt.IntC(0)
+			if signed {
+				over = smt.Ite(smt.Lt(a, smt.IntC(0)), smt.IntC(-1), smt.IntC(0))
+			}
+			return shiftChain(b, bits, func(k int) *smt.Term { return smt.Div(a, smt.IntB(pow2(k))) }, over)
+		}
 		return x.uninterpOp("shr", bits, signed, a, b)
 	case token.AND:
 		if a.IsInt() {
@@ -768,6 +779,17 @@ func (x *Exec) binop(s *State, op token.Token, X, Y ssa.Value, rt types.Type, in
 		}
 		if b.IsInt() && b.Int.Sign() >= 0 {
 			return x.andConst(a, b.Int, bits, signed)
+		}
+		// v & ((1 << n) - 1): the low n bits
+		for i, side := range []ssa.Value{Y, X} {
+			if n, ok := lowMaskCount(side); ok && !signed && bits <= 64 {
+				other := a
+				if i == 1 {
+					other = b
+				}
+				nt := x.term(s, n)
+				return shiftChain(nt, bits, func(k int) *smt.Term { return smt.Mod(other, smt.IntB(pow2(k))) }, other)
+			}
 		}
 		return x.uninterpOp("and", bits, signed, a, b)
 	case token.OR:
@@ -824,6 +846,51 @@ func (x *Exec) binop(s *State, op token.Token, X, Y ssa.Value, rt types.Type, in
 	}
 	x.unsupported("binary op %s", op)
 	return smt.IntC(0)
+}
+
+// shiftChain: ite(b = 0, f(0), ite(b = 1, f(1), ... ite(b = bits-1, f(bits-1), over)))
+func shiftChain(b *smt.Term, bits int, f func(k int) *smt.Term, over *smt.Term) *smt.Term {
+	r := over
+	for k := bits - 1; k >= 0; k-- {
+		r = smt.Ite(smt.Eq(b, smt.IntC(int64(k))), f(k), r)
+	}
+	return r
+}
+
+// lowMaskCount recognises the SSA shape of (1 << n) - 1 (possibly through integer conversions) and returns n.
+func lowMaskCount(v ssa.Value) (ssa.Value, bool) {
+	for {
+		if c, ok := v.(*ssa.Convert); ok {
+			v = c.X
+			continue
+		}
+		break
+	}
+	sub, ok := v.(*ssa.BinOp)
+	if !ok || sub.Op != token.SUB {
+		return nil, false
+	}
+	one, ok := sub.Y.(*ssa.Const)
+	if !ok || one.Value == nil || one.Int64() != 1 {
+		return nil, false
+	}
+	sx := sub.X
+	for {
+		if c, ok := sx.(*ssa.Convert); ok {
+			sx = c.X
+			continue
+		}
+		break
+	}
+	shl, ok := sx.(*ssa.BinOp)
+	if !ok || shl.Op != token.SHL {
+		return nil, false
+	}
+	base, ok := shl.X.(*ssa.Const)
+	if !ok || base.Value == nil || base.Int64() != 1 {
+		return nil, false
+	}
+	return shl.Y, true
 }
 
 func (x *Exec) uninterpOp(name string, bits int, signed bool, a, b *smt.Term) *smt.Term {
